@@ -689,6 +689,11 @@ class _OsCryptBackend(_BcryptCommon):
         #
         secret, ident = self._prepare_digest_args(secret)
         config = self._get_config(ident)
+        if len(secret) > 72:
+            # NOTE: bcrypt only uses the first 72 bytes, and crypt() implementations may
+            #       refuse very long secrets outright (libxcrypt: 512 bytes or more).
+            #       cut at a character boundary, since crypt() needs valid utf-8.
+            secret = utf8_truncate(secret, 72)
         hash = safe_crypt(secret, config)
         if hash is not None:
             if not hash.startswith(config) or len(hash) != len(config) + 31:
